@@ -397,7 +397,11 @@ def run_property(mod, tier, sd, replay=None, only=None):
             status, sig2, f = run_case(sub, case)
         if status != 'fail':
             notes.append('bucket %s did not reproduce outside hypothesis (flaky?)' % sig)
-            print('HARNESS-ERROR non-reproducible failure bucket %s' % sig)
+            print('HARNESS-ERROR non-reproducible failure bucket %s: first detail: %s' % (sig, b['detail'][:600]))
+            try:
+                write_replay(pid, sub, sig, pickle.loads(b['pickle']), b['kind'], b['detail'], b['where'], prefix='flaky_')
+            except Exception:  # noqa: BLE001
+                pass
             write_evidence(mod, tier, sd, total, per_sub, known_hit, violations, time.time() - t0, notes, replayed)
             return 2
         path = write_replay(pid, sub, sig, case, f.kind, f.detail, f.where)
